@@ -10,7 +10,9 @@ for d in /verif/seeded/*/; do
     if git -C /repo apply --check -3 "$d/patch.diff" 2>/dev/null; then :; else echo "$id $prop PATCH-DOES-NOT-APPLY"; continue; fi
   fi
   git -C /repo apply "$d/patch.diff" 2>/dev/null || { echo "$id $prop PATCH-DOES-NOT-APPLY"; git -C /repo checkout -- .; continue; }
+  [ -f "evidence/$prop.json" ] && cp "evidence/$prop.json" "/tmp/seedall.$$.json"
   out=$(timeout 3000 ./tools/check "$prop" --tier quick 2>&1 | grep "^VIOLATION" | head -2)
   git -C /repo checkout -- .
+  [ -f "/tmp/seedall.$$.json" ] && mv "/tmp/seedall.$$.json" "evidence/$prop.json" 
   if [ -n "$out" ]; then echo "$id $prop caught: $(echo "$out" | head -1 | cut -c1-120)"; else echo "$id $prop MISSED"; fi
 done
